@@ -288,6 +288,9 @@ func (pj *Projector) Project(v map[string]any, holderDoc string) *Node {
 				continue
 			}
 		}
+		if val == nil {
+			continue // JSON null == absent (serialization normal form)
+		}
 		label := pj.Names.Abs(k)
 		switch x := val.(type) {
 		case map[string]any:
